@@ -308,6 +308,25 @@ def handleReact (j : Json) : Json :=
     | .ok (Json.arr a) => a.toList.map (fun x => match x with | Json.str s => s.toList | _ => [])
     | _ => []
   let v : React.View := ⟨str "name", nat "ncarbon", elemAt, nat "ringC", nat "uronic"⟩
+  let chainsJson (cs : React.Chains) : Json :=
+    Json.arr (cs.map (fun c => Json.arr #[Json.str (String.ofList c.1), Json.str (String.ofList c.2)])).toArray
+  -- all rounds: one boundary view per round
+  let views : Option (List React.View) := match j.getObjVal? "views" with
+    | .ok (Json.arr a) => some (a.toList.map (fun o =>
+        let s (k : String) := ((o.getObjValAs? String k).toOption.getD "").toList
+        let n (k : String) := (o.getObjValAs? Nat k).toOption.getD 0
+        let ea : List (Option Char) := match o.getObjVal? "elemAt" with
+          | .ok (Json.arr b) => b.toList.map (fun x => match x with | Json.str t => t.toList.head? | _ => none)
+          | _ => []
+        (⟨s "name", n "ncarbon", ea, n "ringC", n "uronic"⟩ : React.View)))
+    | _ => none
+  match views with
+  | some vs =>
+    (match React.reactAll vs mods (nat "recipe_len") with
+     | .ok (rounds, full) => Json.mkObj [("kind", "ok"), ("full", Json.bool full), ("rounds", Json.arr (rounds.map chainsJson).toArray)]
+     | .error e => Json.mkObj [("kind", "error"), ("what", Json.str e)]
+     | .unmodelled => Json.mkObj [("kind", "unmodelled")])
+  | none =>
   match React.reactRound v mods with
   | .ok st => Json.mkObj [("kind", "ok"), ("full", Json.bool st.full),
       ("chains", Json.arr (st.chains.map (fun c => Json.arr #[Json.str (String.ofList c.1), Json.str (String.ofList c.2)])).toArray),
